@@ -584,6 +584,10 @@ Next ==
              /\ st' = [st EXCEPT ![ev.h2] = r.h2] /\ viol' = viol \cup r.v \cup Quiet(ev) /\ UNCHANGED <<slot, ans, glob>>
           ELSE IF ev.call = "handler" THEN
              /\ glob' = [glob EXCEPT !.handler = (ev.mode = "on")] /\ UNCHANGED <<st, slot, ans, viol>>
+          ELSE IF ev.call = "restart" THEN
+             \* QSexactClear + QSexactStart: every problem and basis is gone; the handler the host registered stays (LogChan.tla: process-wide)
+             /\ st' = [h \in Handles |-> Dead] /\ slot' = [b \in Slots |-> NoBas] /\ ans' = {} /\ glob' = [glob EXCEPT !.prec = 128]
+             /\ viol' = viol \cup Quiet(ev)
           ELSE IF ev.call = "precision" THEN
              /\ glob' = [glob EXCEPT !.prec = ev.bits] /\ UNCHANGED <<st, slot, ans, viol>>
           ELSE IF ev.call = "bsol" THEN
